@@ -213,7 +213,69 @@ def memo_path(ctx):
                         break
 
 
+DECK_VAL = {"None": None, "F": False, "v1": "one", "v2": 2}
+
+
+def deck_un(x):
+    for k, v in DECK_VAL.items():
+        if x is v or (x == v and type(x) is type(v)):
+            return k
+    return repr(x)
+
+
+def run_deck(ctx):
+    """beyond the listed property: hio.help.decking.Deck, the queue class of every message path (specs/help/Deck.tla).
+    Differences are divergences, never C21 violations."""
+    from hio.help.decking import Deck
+    consts = {"Vals": {"v1", "v2"}, "MaxLen": 4, "MaxOps": 6 if ctx.quick else 8}
+    r = ctx.tlc("help", "Deck", core.cfg_text(constants=consts, view="MCView",
+                                              properties=["PushNeverNone", "PullIsFifo", "EmptivePullNeverRaises"]))
+    for v in r.violated:
+        ctx.divergence("the Deck model violates %s" % v)
+    hs = ctx.tlc("help", "DeckGen", core.cfg_text(constants=dict(consts, MaxOps=3, Vals={"v1"}), constraints=["Dump"]),
+                 workers=1).tagged_json("BH")
+    nex = len(hs)
+    nsim, dep = (60, 10) if ctx.quick else (2000, 16)
+    hs += ctx.tlc("help", "DeckGen", core.cfg_text(constants=dict(consts, MaxOps=dep, MaxLen=6), constraints=["Dump"]),
+                  workers=1, simulate="num=%d" % nsim, depth=dep + 2).tagged_json("BH")
+    if nex < 300 or len(hs) - nex < nsim // 2:
+        raise core.MachineryError("Deck history dump too small: %d + %d" % (nex, len(hs) - nex))
+    nbad = 0
+    for h in hs:
+        d = Deck()
+        for n, e in enumerate(h):
+            op, a = e["op"], e["a"]
+            try:
+                if op == "push":
+                    res = str(d.push(DECK_VAL[a]))
+                elif op == "pull":
+                    res = deck_un(d.pull(emptive=a))
+                elif op == "append":
+                    res = deck_un(d.append(DECK_VAL[a]))
+                elif op == "appendleft":
+                    res = deck_un(d.appendleft(DECK_VAL[a]))
+                elif op == "extend":
+                    res = deck_un(d.extend([DECK_VAL[x] for x in a]))
+                elif op == "pop":
+                    res = deck_un(d.pop())
+                elif op == "clear":
+                    res = deck_un(d.clear())
+            except IndexError:
+                res = "IndexError"
+            except Exception as ex:
+                res = "X:%s" % type(ex).__name__
+            got = [deck_un(x) for x in d]
+            if res != e["res"] or got != list(e["q"]):
+                nbad += 1
+                ctx.divergence("Deck (beyond C21): op %d %s(%s) gives %r with content %s, the model says %r with %s (history %s)" % (
+                    n + 1, op, a, res, got, e["res"], list(e["q"]), [(x["op"], x["a"]) for x in h[:n + 1]]))
+                break
+    ctx.note("Deck.tla (beyond the property): %d histories (%d exhaustive of length 3, rest simulated of length %d) replayed on "
+             "real Deck objects: %d differ" % (len(hs), nex, dep, nbad))
+
+
 def run(ctx):
+    run_deck(ctx)
     consts = {"Dsts": {"d1", "d2"}, "Lens": {1, 3}, "MaxGrams": 3, "MaxOps": 7 if ctx.quick else 9}
     r = ctx.tlc("memo", "TxPressure", core.cfg_text(constants=consts, invariants=["WireExact", "NoLoss", "OneInFlight"], view="MCView"))
     for v in r.violated:
